@@ -126,8 +126,9 @@ fn c14(idx: usize) -> i32 {
             let i = (k + t) % n;
             let (kind, doc) = scn.docs[i];
             let at = seq.fetch_add(1, Ordering::SeqCst);
-            // thread 0 goes through the shared AST, thread 1 through the string entry points
-            let r = if t == 0 { call_shared(ast, kind, doc) } else { call_str(scn.schema, kind, doc) };
+            // both threads use both routes (the shared AST and the string entry points, which parse the
+            // schema again), alternating, so that every path is executed by two threads
+            let r = if (k + t) % 2 == 0 { call_shared(ast, kind, doc) } else { call_str(scn.schema, kind, doc) };
             out.push((at, i, r));
           }
           if t == 1 {
